@@ -635,7 +635,11 @@ impl TransportManager {
             Protocol::Tcp(_) => match protocol_stack.next() {
                 #[cfg(feature = "websocket")]
                 Some(Protocol::Ws(_)) | Some(Protocol::Wss(_)) => SupportedTransport::WebSocket,
-                Some(Protocol::P2p(_)) => SupportedTransport::Tcp,
+                // The transport dials (and verifies) the peer of the first `/p2p` component while
+                // the dial record below is kept for the peer of the last one: only accept the
+                // address if the two are the same component.
+                Some(Protocol::P2p(_)) if protocol_stack.next().is_none() =>
+                    SupportedTransport::Tcp,
                 _ =>
                     return Err(Error::TransportNotSupported(
                         address_record.address().clone(),
